@@ -37,6 +37,7 @@ type lockInfo struct {
 	Class string `json:"class"`
 	Write bool   `json:"write"`
 	Base  string `json:"base"`
+	Sec   int    `json:"sec"` // syntactic critical section: the n-th Lock/RLock call of the function
 }
 
 type site struct {
@@ -61,6 +62,7 @@ type walker struct {
 	alias  map[string]string
 	held   []lockInfo
 	sites  []site
+	secSeq int
 	local  map[string]bool // identifiers that denote a struct VALUE owned by this function (receiver or parameter by value, local variable)
 }
 
@@ -340,7 +342,8 @@ func (w *walker) call(c *ast.CallExpr) {
 	if cls, base, op, ok := w.lockCall(c); ok {
 		switch op {
 		case "Lock", "RLock":
-			w.held = append(w.held, lockInfo{Class: cls, Write: op == "Lock", Base: base})
+			w.secSeq++
+			w.held = append(w.held, lockInfo{Class: cls, Write: op == "Lock", Base: base, Sec: w.secSeq})
 		default:
 			for i := len(w.held) - 1; i >= 0; i-- {
 				if w.held[i].Class == cls && w.held[i].Base == base {
@@ -733,6 +736,70 @@ func main() {
 		}
 	}
 
+	// ---- critical-section structure of the backend operations (C08) ----
+	// per function that touches a backend's map: the critical sections in syntactic order, each with its
+	// mode (0 = no mutex: a sync.Map call, 1 = RLock, 2 = Lock) and whether it reads / writes the map
+	type secT struct {
+		mode        int
+		read, write bool
+	}
+
+	secs := map[string][]*secT{}
+	secIdx := map[string]map[int]*secT{}
+
+	for _, s := range all {
+		if s.Init || !(s.Loc == "hashedBucket.data" || s.Loc == "hashedBucketOf.data" || s.Loc == "syncMap.data") {
+			continue
+		}
+
+		var cur *secT
+
+		if len(s.Locks) == 0 {
+			cur = &secT{}
+			secs[s.Func] = append(secs[s.Func], cur)
+		} else {
+			l := s.Locks[len(s.Locks)-1]
+			if secIdx[s.Func] == nil {
+				secIdx[s.Func] = map[int]*secT{}
+			}
+
+			cur = secIdx[s.Func][l.Sec]
+			if cur == nil {
+				cur = &secT{mode: 1}
+				if l.Write {
+					cur.mode = 2
+				}
+
+				secIdx[s.Func][l.Sec] = cur
+				secs[s.Func] = append(secs[s.Func], cur)
+			}
+		}
+
+		if s.Write {
+			cur.write = true
+		} else {
+			cur.read = true
+		}
+	}
+
+	var secRows []string
+
+	fnNames := make([]string, 0, len(secs))
+	for f := range secs {
+		fnNames = append(fnNames, f)
+	}
+
+	sort.Strings(fnNames)
+
+	for _, f := range fnNames {
+		var it []string
+		for _, c := range secs[f] {
+			it = append(it, fmt.Sprintf("(%d%%N, %v, %v)", c.mode, c.read, c.write))
+		}
+
+		secRows = append(secRows, fmt.Sprintf("  (%q, [%s])", f, strings.Join(it, "; ")))
+	}
+
 	// ---- classes and policy ----
 	// kl.val / kl.err are handed from the key-lock owner to the waiters through close(kl.lock) / <-kl.lock:
 	// the ownership protocol is the subject of theorem C16_kl_protocol on the Failover model.
@@ -839,7 +906,7 @@ func main() {
 	var b strings.Builder
 
 	b.WriteString("(* GENERATED by /verif/harness/cmd/goextract from the working tree of /repo. Do not edit. *)\n")
-	b.WriteString("From Cache Require Import Base Conc.\n\n")
+	b.WriteString("From Coq Require Import String.\nFrom Cache Require Import Base Conc.\n\n")
 
 	names := func(m map[string]int) string {
 		ks := make([]string, 0, len(m))
@@ -859,7 +926,10 @@ func main() {
 
 	b.WriteString("(* location classes:\n" + names(locID) + "*)\n")
 	b.WriteString("(* mutex classes:\n" + names(mtxID) + "*)\n")
-	b.WriteString("Definition table : list site := [\n" + strings.Join(rows, ";\n") + "\n].\n")
+	b.WriteString("Definition table : list site := [\n" + strings.Join(rows, ";\n") + "\n].\n\n")
+	b.WriteString("(* critical sections of the functions that touch a backend's map, in syntactic order:\n" +
+		"   (mode: 0 = sync.Map call, 1 = RLock, 2 = Lock; reads the map; writes the map) *)\n")
+	b.WriteString("Definition sections : list (string * list (N * bool * bool)) := [\n" + strings.Join(secRows, ";\n") + "\n]%string.\n")
 
 	if err := os.MkdirAll(filepath.Dir(out), 0o755); err != nil {
 		panic(err)
